@@ -1,4 +1,4 @@
-"""C19 — parameter records, presets and configuration parsing: table, key-definedness, kind, handler/raiser and scope rules."""
+"""C19 — parameter records, presets and configuration parsing: table rules, interpreted configuration table, kind, handler/raiser and scope rules."""
 
 from __future__ import annotations
 
@@ -54,11 +54,12 @@ def run(ctx):
         "TAB/FLOW rules decided on the parsed source: DefaultParams is a frozen dataclass whose defaults are of hashable kinds and whose "
         "annotations equal the types of their defaults, as_dict agrees with attribute access and round-trips; every class deriving from it may re-bind a base field "
         "only as a dataclass field of the same declared type inside a frozen dataclass (a plain class attribute is dead because the inherited "
-        "__init__ shadows it) and must itself satisfy the type rule.  For parse_config and its helpers: reads of optional keys of the parsed "
-        "TOML tables are guarded (key-definedness on the CFG), operations accept the kind of the default they may hold, try/except handlers "
-        "catch what the guarded statements can raise per the API table, no builtin is used as data, the [output] defaults reach the returned "
-        "dict, and the sum/length checks raise the configuration error and dominate the return of _parse_config_params.  Not decided: what the "
-        "CLI does with the parsed configuration; file-system effects.")
+        "__init__ shadows it) and must itself satisfy the type rule.  parse_config is interpreted (file layer stubbed, TOML table supplied by "
+        "the checker) over every subset of the optional keys of [output], [input] and [parameters] in each of the three input modes: every "
+        "such configuration parses, every omitted key takes its documented default, phases and fabric come back as enumeration members, and "
+        "each single-fault configuration raises ConfigError; _parse_phase is interpreted per kind of TOML value.  AST rules: operations accept "
+        "the kind of the default they may hold, try/except handlers catch what the guarded statements can raise per the API table, no builtin "
+        "is used as data, defaults are applied on every path.  Not decided: what the CLI does with the parsed configuration; file-system effects.")
     ctx.trusted += ["API raiser table in pdxsa/checks/c19.py", "dataclass semantics: inherited __init__ assigns field defaults to instances"]
     for k, v in RULES.items():
         ctx.rule(k, v)
@@ -71,11 +72,9 @@ def run(ctx):
 RULES = {
     "C19.record": "DefaultParams: @dataclass(frozen=True); every default of a hashable kind; annotation == type of default; as_dict() interpreted on a default and on a fully overridden record equals attribute access and round-trips through DefaultParams(**d)",
     "C19.preset": "a subclass re-binding a DefaultParams field does so as an annotated field of the same type in a @dataclass(frozen=True) class, with a default of that type",
-    "C19.key-defined": "every subscript read of a parsed-TOML dict is guarded (`k in d` / prior store / .get / KeyError handler) unless the key is a documented required input of that mode",
     "C19.kind": "an operation applied to a parameter value accepts the kind of the DefaultParams default it may hold",
     "C19.handler": "every except clause in the config parser catches an exception its guarded statements can raise per the API table, and no table exception escapes uncaught from a guarded conversion",
     "C19.scope": "no name resolving to a Python builtin is subscripted or used as data",
-    "C19.postcond": "_parse_config_params: the sum and length checks raise ConfigError and dominate the return; phases go through _parse_phase per element into a tuple",
     "C19.defaults-all-paths": "a statement that gives an optional key its default (d[k] = d.get(k, default) / setdefault) dominates every return of its function",
     "C19.phase-kinds": "_parse_phase returns a MineralPhase member or raises the configuration error for every kind of TOML value (name, ordinal, member, unknown name, out-of-range ordinal, float, list)",
     "C19.config-table": "parse_config interpreted over every subset of the optional keys of [output], [input] and [parameters] in all three input modes: it parses, "
@@ -216,7 +215,6 @@ def config(ctx, I):
                 raise
     param_fields = {f[0]: f for f in I.dataclass_fields(I.resolve("pydrex.core.DefaultParams"))}
     for name, fn in fns.items():
-        key_defined(ctx, mod, name, fn, param_fields)
         handlers(ctx, mod, name, fn, I)
         scope(ctx, mod, name, fn)
     for name, fn in fns.items():
@@ -224,9 +222,7 @@ def config(ctx, I):
     phase_kinds(ctx, I)
     config_table(ctx)
     kinds(ctx, mod, fns, I, param_fields)
-    postcond(ctx, mod, fns)
     output_kept(ctx, mod, fns)
-    ctx.floor("C19.key-defined", 10)
     ctx.floor("C19.handler", 2)
     ctx.floor("C19.scope", 6)
     ctx.floor("C19.defaults-all-paths", 5)
@@ -234,72 +230,6 @@ def config(ctx, I):
 
 def L(ctx, mod, node):
     return f"{ctx.program.relpath(mod.path)}:{getattr(node, 'lineno', 0)}"
-
-
-def key_defined(ctx, mod, fname, fn, param_fields):
-    cfg = flow.CFG(fn)
-    idom = cfg.dominators()
-    params = {a.arg for a in fn.args.args}
-    # facts: nodes that define key k of dict d
-    defs = []      # (node, dict, key or "*fields*")
-    guards = []    # (ifnode, dict, key, branch on which key is present)
-    for n, s in cfg.stmt.items():
-        if s is None:
-            continue
-        if isinstance(s, ast.Assign):
-            for t in s.targets:
-                if isinstance(t, ast.Subscript) and isinstance(t.value, ast.Name) and t.value.id in TOML_DICTS:
-                    k = t.slice.value if isinstance(t.slice, ast.Constant) else ("*param*:" + t.slice.id if isinstance(t.slice, ast.Name) else None)
-                    dn = n
-                    if isinstance(t.slice, ast.Name) and in_fields_loop(fn, s):
-                        k = "*fields*"   # executed for every DefaultParams field (non-empty, constant iteration): attribute it to the loop node
-                        loop = [l for l in ast.walk(fn) if isinstance(l, ast.For) and s in l.body][0]
-                        dn = cfg.node_of(loop)
-                    defs.append((dn, t.value.id, k))
-        if isinstance(s, ast.If):
-            for c in ast.walk(s.test):
-                if isinstance(c, ast.Compare) and len(c.ops) == 1 and isinstance(c.ops[0], (ast.In, ast.NotIn)) and isinstance(c.comparators[0], ast.Name):
-                    k = c.left.value if isinstance(c.left, ast.Constant) else ("*param*:" + c.left.id if isinstance(c.left, ast.Name) else None)
-                    pres = "true" if isinstance(c.ops[0], ast.In) else "false"
-                    whole = s.test is c or (isinstance(s.test, ast.BoolOp) and isinstance(s.test.op, ast.And) and pres == "true")
-                    if whole or (isinstance(s.test, ast.BoolOp) and isinstance(s.test.op, ast.And) and all(isinstance(v, ast.Compare) and isinstance(v.ops[0], ast.NotIn) for v in s.test.values)):
-                        guards.append((n, c.comparators[0].id, k, pres, s))
-    for n, s in cfg.stmt.items():
-        if s is None:
-            continue
-        hdr = s.test if isinstance(s, (ast.If, ast.While)) else (s.iter if isinstance(s, ast.For) else s)
-        if isinstance(s, (ast.Try, ast.With, ast.FunctionDef, ast.ExceptHandler)):
-            continue
-        for sub in ast.walk(hdr):
-            if not (isinstance(sub, ast.Subscript) and isinstance(sub.ctx, ast.Load) and isinstance(sub.value, ast.Name) and sub.value.id in TOML_DICTS):
-                continue
-            if sub.value.id in ("input",) and "input" not in params:
-                continue  # handled by the scope rule
-            d = sub.value.id
-            k = sub.slice.value if isinstance(sub.slice, ast.Constant) else ("*param*:" + sub.slice.id if isinstance(sub.slice, ast.Name) else None)
-            if k is None:
-                continue
-            ok, why = False, "unguarded"
-            if d == "_params" and isinstance(k, str) and k in param_fields and any(dd == "_params" and kk == "*fields*" and cfg.dominates(dn, n, idom) for dn, dd, kk in defs):
-                ok, why = True, "defined for every DefaultParams field by the defaults loop"
-            elif any(dd == d and kk == k and dn != n and cfg.dominates(dn, n, idom) for dn, dd, kk in defs):
-                ok, why = True, "dominated by a store of the same key"
-            elif any(gd == d and gk == k and cfg.true_edge_dominates(gn, n, pres) for gn, gd, gk, pres, gs in guards):
-                ok, why = True, "dominated by a membership test"
-            elif any(gd == d and gk == k and pres == "false" and flow_exits(gs.body) and cfg.dominates(gn, n, idom) for gn, gd, gk, pres, gs in guards):
-                ok, why = True, "the 'not in' branch exits"
-            elif in_try_catching(fn, s, ("KeyError", "LookupError", "Exception")):
-                ok, why = True, "inside a handler for KeyError"
-            elif isinstance(k, str) and k in REQUIRED_INPUT.get(fname, set()):
-                ok, why = True, "documented required input of this mode"
-            elif d == "_params" and isinstance(k, str) and k in param_fields and any(
-                    isinstance(cs, ast.Assign) and isinstance(cs.value, ast.Call) and flow.dotted(cs.value.func) == "_parse_config_params"
-                    and cfg.dominates(cn, n, idom) for cn, cs in cfg.stmt.items()):
-                ok, why = True, "taken from the result of _parse_config_params, which defines every DefaultParams field"
-            elif fname == "parse_config" and d == "toml" and any(dd == "toml" and kk == k for dn, dd, kk in defs):
-                ok, why = True, "stored earlier in parse_config"
-            ctx.ob("C19.key-defined", f"{fname}:{d}[{k}]", ok, why if ok else f"read of optional key {k!r} of `{d}` is not guarded: KeyError when the key is omitted", L(ctx, mod, sub),
-                   key=("C19.key-defined", fname, d, k, ast.unparse(s)[:60]))
 
 
 def defaults_all_paths(ctx, mod, fname, fn):
@@ -687,34 +617,6 @@ def guarded_by_isinstance(fn, st, key):
             if "isinstance" in t and key in t:
                 return True
     return False
-
-
-def postcond(ctx, mod, fns):
-    fn = fns.get("_parse_config_params")
-    if fn is None:
-        return
-    cfg = flow.CFG(fn)
-    idom = cfg.dominators()
-    rets = [n for n, s in cfg.stmt.items() if isinstance(s, ast.Return)]
-
-    def raising_ifs(pred):
-        return [n for n, s in cfg.stmt.items() if isinstance(s, ast.If) and pred(ast.unparse(s.test)) and
-                any(isinstance(r, ast.Raise) and "ConfigError" in ast.unparse(r) for b in s.body for r in ast.walk(b))]
-    sumc = raising_ifs(lambda t: "sum" in t and "phase_fractions" in t)
-    lenc = raising_ifs(lambda t: "len" in t and "phase_assemblage" in t and "phase_fractions" in t)
-    ctx.ob("C19.postcond", "fractions-sum check raises ConfigError and dominates the return", bool(sumc) and bool(rets) and all(any(cfg.dominates(c, r, idom) for c in sumc) for r in rets), "", L(ctx, mod, fn))
-    ctx.ob("C19.postcond", "equal-length check raises ConfigError and dominates the return", bool(lenc) and all(any(cfg.dominates(c, r, idom) for c in lenc) for r in rets), "", L(ctx, mod, fn))
-    conv = [s for s in ast.walk(fn) if isinstance(s, ast.Assign) and "phase_assemblage" in ast.unparse(s.targets[0]) and isinstance(s.value, ast.Call)
-            and flow.dotted(s.value.func) == "tuple" and any(isinstance(c, ast.Call) and flow.dotted(c.func) == "_parse_phase" for c in ast.walk(s.value))]
-    ctx.ob("C19.postcond", "phase list becomes a tuple of _parse_phase(element)", bool(conv), "", L(ctx, mod, fn))
-    fab = [s for s in ast.walk(fn) if isinstance(s, ast.Assign) and "initial_olivine_fabric" in ast.unparse(s.targets[0]) and "MineralFabric" in ast.unparse(s.value)]
-    ctx.ob("C19.postcond", "fabric is converted to a MineralFabric member", bool(fab), "", L(ctx, mod, fn))
-    pp = fns.get("_parse_phase")
-    if pp is not None:
-        cfgp = flow.CFG(pp)
-        # every path to the normal exit returns an enum-producing expression; the fall-through raises ConfigError
-        last = pp.body[-1]
-        ctx.ob("C19.postcond", "_parse_phase falls through to ConfigError", isinstance(last, ast.Raise) and "ConfigError" in ast.unparse(last), "", L(ctx, mod, pp))
 
 
 def output_kept(ctx, mod, fns):
